@@ -73,6 +73,8 @@ pub struct MemDb {
     /// every key ever read (for fault enumeration)
     pub touched: Mutex<std::collections::BTreeSet<Key>>,
     pub log_touched: bool,
+    /// return accounts with their bytecode attached (as some node databases do)
+    pub attach_code: bool,
 }
 
 impl Clone for MemDb {
@@ -84,6 +86,7 @@ impl Clone for MemDb {
             fault_hits: AtomicU64::new(0),
             touched: Mutex::new(Default::default()),
             log_touched: self.log_touched,
+            attach_code: self.attach_code,
         }
     }
 }
@@ -147,7 +150,13 @@ impl DatabaseRef for MemDb {
     type Error = DbError;
     fn basic_ref(&self, address: Address) -> Result<Option<AccountInfo>, DbError> {
         self.check(Key::Basic(address))?;
-        Ok(self.accounts.get(&address).map(|a| a.info.clone()))
+        Ok(self.accounts.get(&address).map(|a| {
+            let mut info = a.info.clone();
+            if self.attach_code && info.code.is_none() && info.code_hash != KECCAK_EMPTY {
+                info.code = self.codes.get(&info.code_hash).cloned();
+            }
+            info
+        }))
     }
     fn code_by_hash_ref(&self, code_hash: B256) -> Result<Bytecode, DbError> {
         self.check(Key::Code(code_hash))?;
